@@ -142,6 +142,33 @@ def run(ctx):
             self.calls.append((x, True, id(individual)))
             return objective(self.cfg, x)
 
+        def evaluate_inequality_constraints(self, x):
+            # red-team round 6: the constrained streams; [] (as the base class) for the unconstrained ones
+            g = gvals(self.cfg, x)
+            shape = self.cfg["constraint_shape"]
+            return g if shape == "list" or not g else (tuple(g) if shape == "tuple" else np.array(g))
+
+    def gvals(cfg, x):
+        """Inequality constraints g(x) of a scripted problem (the design is feasible iff every g(x) < 0)."""
+        x = [float(v) for v in x]
+        out = []
+        for c in cfg["constraints"]:
+            if c[0] == "upper":                     # x[j] < c
+                out.append(x[c[1] % len(x)] - c[2])
+            elif c[0] == "lower":                   # x[j] > c
+                out.append(c[2] - x[c[1] % len(x)])
+            elif c[0] == "sum":                     # sum(x) < c
+                out.append(sum(x) - c[1])
+            elif c[0] == "ball":                    # inside the ball of squared radius c
+                out.append(sum(v * v for v in x) - c[1])
+            else:                                   # "outside": outside that ball (the optimum of most objectives is infeasible)
+                out.append(c[1] - sum(v * v for v in x))
+        return out
+
+    def true_marker(cfg, vec):
+        """Infeasibility marker of a recorded design recomputed from the problem's own constraints on the recorded vector."""
+        return not all(v < 0.0 for v in gvals(cfg, vec))
+
     def objective(cfg, x):
         out = []
         for k in range(cfg["nobj"]):
@@ -156,15 +183,15 @@ def run(ctx):
             out.append(off + mul * y)
         return out
 
-    def resigned(cfg, ind):
+    def resigned(cfg, ind, marker=None):
         """Signed costs of a recorded design recomputed by the harness from its recorded raw costs: sign * (cost rounded to
         7 decimals), sign = -1 for a maximised objective; the infeasibility marker is the recorded one (the scripted problems
-        are unconstrained).  None if the design carries no complete cost list."""
+        are unconstrained) unless `marker` is given.  None if the design carries no complete cost list."""
         raw = list(ind.costs)
         if len(raw) != cfg["nobj"] or len(ind.costs_signed) != cfg["nobj"] + 1:
             return None
         return [(-1 if k in cfg["maximize"] else 1) * float(np.round(float(raw[k]), decimals=7)) for k in range(cfg["nobj"])] + \
-               [bool(ind.costs_signed[-1])]
+               [bool(ind.costs_signed[-1]) if marker is None else marker]
 
     # ---------------- recording ----------------
     class Rec:
@@ -358,7 +385,7 @@ def run(ctx):
     def fail(what, cfg, clause, **kw):
         if len(ctx.oracle_failures) < 40:
             inp = {k: cfg[k] for k in ("algo", "N", "G", "nobj", "family", "bounds", "precision", "maximize", "fail_at", "seed",
-                                       "prob_cross", "prob_mutation", "scale")}
+                                       "prob_cross", "prob_mutation", "scale", "constraints", "constraint_shape")}
             inp.update(kw)
             ctx.oracle_failures.append({"what": what, "input": inp,
                                         "match": {"kind": "run", "algo": cfg["algo"], "clause": clause}})
@@ -394,8 +421,20 @@ def run(ctx):
                 dropped = [d for d in prev if tuple(d.vector) not in kept]
                 # twice: on the implementation's costs_signed, and on signed costs recomputed by the harness from the recorded
                 # raw costs (sign * round(cost, 7 decimals)): the latter does not trust the implementation's rounding
-                for how, sc in (("recorded signed costs", lambda i: list(i.costs_signed)),
-                                ("signed costs recomputed from the recorded costs, 7 decimals", lambda i: resigned(cfg, i))):
+                variants = [("recorded signed costs", lambda i: list(i.costs_signed)),
+                            ("signed costs recomputed from the recorded costs, 7 decimals", lambda i: resigned(cfg, i))]
+                if cfg["constraints"]:
+                    # red-team round 6: on a constrained problem the dominance of the statement is the constrained dominance of
+                    # the designs themselves: feasibility of every recorded design recomputed by the harness from the problem's
+                    # inequality constraints on the recorded vector (all g(x) < 0), not the marker the implementation stored
+                    # (equal on the unchanged tree: Job.evaluate computes the marker from the same constraints on the vector it
+                    # then evaluates, property C05)
+                    variants += [
+                        ("recorded signed costs, feasibility recomputed from the constraints on the recorded vector",
+                         lambda i: (list(i.costs_signed[:-1]) + [true_marker(cfg, i.vector)]) if len(i.costs_signed) else None),
+                        ("signed costs recomputed from the recorded costs, 7 decimals, feasibility recomputed from the constraints "
+                         "on the recorded vector", lambda i: resigned(cfg, i, true_marker(cfg, i.vector)))]
+                for how, sc in variants:
                     if any(sc(i) is None for i in list(prev) + list(nxt)):
                         continue
                     found = False
@@ -405,14 +444,17 @@ def run(ctx):
                                 fail("generation %d keeps a design dominated by a dropped design of generation %d (%s)" % (t + 1, t, how),
                                      cfg, "elitism", generation=t + 1,
                                      dropped=dict(vector=list(d.vector), raw_costs=[float(c) for c in d.costs],
-                                                  costs=[float(c) for c in sc(d)]),
+                                                  costs=[float(c) for c in sc(d)], constraints=gvals(cfg, d.vector),
+                                                  recorded_marker=bool(d.costs_signed[-1])),
                                      survivor=dict(vector=list(s.vector), raw_costs=[float(c) for c in s.costs],
-                                                   costs=[float(c) for c in sc(s)]))
+                                                   costs=[float(c) for c in sc(s)], constraints=gvals(cfg, s.vector),
+                                                   recorded_marker=bool(s.costs_signed[-1])))
                                 found = True
                                 break
                         if found:
                             break
-                    if cfg["nobj"] == 1 and prev and nxt:
+                    # "for an unconstrained single objective the best recorded cost never gets worse"
+                    if cfg["nobj"] == 1 and prev and nxt and not cfg["constraints"]:
                         bp = min(float(sc(i)[0]) for i in prev)
                         bn = min(float(sc(i)[0]) for i in nxt)
                         if bn > bp:
@@ -479,7 +521,7 @@ def run(ctx):
                    precision=rng.choice([None, None, 0.5, 0.25]),
                    maximize=[k for k in range(nobj) if rng.random() < 0.25],
                    prob_cross=rng.choice([1.0, 0.9, 0.5, 0.3]), prob_mutation=rng.choice([0.2, 0.5, 1.0]),
-                   fail_at=[])
+                   fail_at=[], constraints=[], constraint_shape="list")
         # objective magnitudes: (offset, factor) per objective.  Large offsets with small factors make designs differ only far
         # behind the leading digits (near-ties for any rounding coarser than 7 decimals), tiny factors put the whole objective
         # near the 7th decimal (ties after the rounding of the unchanged code), "each" mixes the magnitudes between objectives
@@ -500,16 +542,46 @@ def run(ctx):
                 start = rng.randrange(0, total)
                 run_len = rng.choice([1, 1, 2, 3, 4])
                 fails.update(range(start, start + run_len))
-            # never 5 consecutive call numbers (those could be 5 attempts of one design)
-            ok = sorted(fails)
-            out, streak = [], 0
-            for c in ok:
-                streak = streak + 1 if out and out[-1] == c - 1 else 1
-                if streak <= 4:
-                    out.append(c)
-                else:
-                    streak = 0
-            cfg["fail_at"] = out
+            cfg["fail_at"] = cap_streaks(fails)
+        return cfg
+
+    def cap_streaks(fails):
+        """never 5 consecutive call numbers (those could be 5 attempts of one design)"""
+        out, streak = [], 0
+        for c in sorted(fails):
+            streak = streak + 1 if out and out[-1] == c - 1 else 1
+            if streak <= 4:
+                out.append(c)
+            else:
+                streak = 0
+        return out
+
+    def constrain(cfg, with_fail):
+        """Red-team round 6 (LEAD_BRIEF rule 13): inequality constraints on a scripted problem, combined with the failure schedule.
+        One or two constraints relative to the parameter boxes: coordinate bounds at 90 / 75 / 50 / 25 % of the box (thresholds
+        that lie on the precision grids, so g(x) = 0 exactly, infeasible, occurs), a bound on the coordinate sum, inside / outside
+        a ball; returned as a list, a tuple or a numpy array.  With failures: the random schedule of make_cfg, half of the time
+        joined with a periodic one (every p-th objective call fails once), so that re-rolled designs occur in every batch."""
+        b = cfg["bounds"]
+        cons = []
+        for _ in range(rng.choice([1, 1, 2])):
+            kind = rng.choice(["upper", "upper", "lower", "sum", "ball", "outside"])
+            if kind in ("upper", "lower"):
+                j = rng.randrange(len(b))
+                frac = rng.choice([0.9, 0.75, 0.5, 0.25]) if kind == "upper" else rng.choice([0.1, 0.25, 0.5])
+                cons.append([kind, j, b[j][0] + frac * (b[j][1] - b[j][0])])
+            elif kind == "sum":
+                lo, hi = sum(x[0] for x in b), sum(x[1] for x in b)
+                cons.append([kind, lo + rng.choice([0.85, 0.6, 0.4]) * (hi - lo)])
+            else:
+                r2 = sum(max(abs(x[0]), abs(x[1])) ** 2 for x in b)
+                cons.append([kind, r2 * (rng.choice([0.7, 0.4, 0.2]) if kind == "ball" else rng.choice([0.02, 0.1, 0.3]))])
+        cfg["constraints"] = cons
+        cfg["constraint_shape"] = rng.choice(["list", "list", "tuple", "array"])
+        if with_fail and rng.random() < 0.5:
+            p = rng.choice([3, 4, 6, 7])
+            total = cfg["N"] * (cfg["G"] + 1) * 2
+            cfg["fail_at"] = cap_streaks(set(cfg["fail_at"]) | set(range(rng.randrange(p), total, p)))
         return cfg
 
     stats = {"runs": 0, "runaway_skipped": 0, "with_failures": 0, "failed_calls": 0, "successful_calls": 0,
@@ -558,7 +630,7 @@ def run(ctx):
         m["successful_calls"], m["failed_calls"] = obs[2], obs[3]
         meta.append(m)
         ctx.count((cfg["algo"], cfg["N"], cfg["G"], cfg["nobj"], cfg["seed"], tuple(cfg["fail_at"]), cfg["family"],
-                   tuple(cfg["scale"])), nontrivial=True)
+                   tuple(cfg["scale"]), repr(cfg["constraints"])), nontrivial=True)
         if len(ctx.samples) < 3 and cfg["fail_at"] and cfg["G"] >= 2:
             ctx.sample(m)
 
@@ -572,6 +644,20 @@ def run(ctx):
                     for with_fail in (False, True):
                         for _ in range(seeds):
                             one_run(make_cfg(algo, N, G, nobj, with_fail, rng.randrange(1 << 30)))
+    # constrained problems (red-team round 6): inequality constraints combined with transient failures (re-rolled designs),
+    # all four algorithms for the bookkeeping, NSGA-II on every N / G >= 2 for the elitism clause with recomputed feasibility
+    import time
+    n_con, t_con = 0, time.perf_counter()
+    for algo, ns, gs, objs in (("NSGAII", n_list, [g for g in g_list if g >= 2], (1, 2, 3)),
+                               ("EpsMOEA", [2, 4], [1, 3], (2,)), ("OMOPSO", [2, 4], [1, 3], (2,)), ("SMPSO", [2, 4], [1, 3], (2,))):
+        for N in ns:
+            for G in gs:
+                for nobj in objs:
+                    for with_fail in ((True, True, False) if algo == "NSGAII" else (True,)):
+                        for _ in range(max(1, seeds // 2)):
+                            one_run(constrain(make_cfg(algo, N, G, nobj, with_fail, rng.randrange(1 << 30)), with_fail))
+                            n_con += 1
+    stats["constrained_runs"], stats["constrained_runs_seconds"] = n_con, round(time.perf_counter() - t_con, 2)
     # boundary: exactly four consecutive failures of one design (the fifth attempt succeeds)
     for algo in ("NSGAII", "EpsMOEA", "OMOPSO", "SMPSO"):
         cfg = make_cfg(algo, 3, 2, 2, False, 12345)
@@ -643,7 +729,10 @@ def run(ctx):
     ctx.rule = ("one case = one real run of NSGAII / EpsMOEA / OMOPSO / SMPSO (N in %r, G in %r, 1..3 objectives, three objective "
                 "families incl. a coarse one with many ties, objective magnitudes offset + factor * f per objective (offsets 0, 1e-6, "
                 "1e3, +-1e6, 1e9, factors 1e-6 .. 1e6, equal or mixed between the objectives), grid-rounded or continuous initial vectors, minimise/maximise, with and "
-                "without scripted TimeoutError/RuntimeError on chosen call numbers, runs of up to 4 consecutive failures) or one "
+                "without scripted TimeoutError/RuntimeError on chosen call numbers, runs of up to 4 consecutive failures; plus runs "
+                "on problems with one or two inequality constraints (coordinate bounds, sum, inside / outside a ball; list / tuple / "
+                "array) combined with random and periodic failure schedules, elitism there also with feasibility recomputed from "
+                "the constraints on the recorded vectors) or one "
                 "pop_acceptance step on a random population from small cost/vector grids; distinct = distinct "
                 "(algorithm, N, G, objectives, seed, schedule) resp. (population, offspring, choice); acceptance steps on a "
                 "1-member population count as trivial") % (n_list, g_list)
